@@ -18,6 +18,9 @@ mod run;
 mod shrink;
 mod sys;
 mod util;
+mod w9;
+mod zoo;
+mod zoo_gen;
 
 fn main() {
     let args: Vec<String> = std::env::args().collect();
